@@ -11,7 +11,8 @@ tier = "quick"
 for i, a in enumerate(sys.argv):
     if a == "--checks": checks = [] if sys.argv[i + 1] == "none" else sys.argv[i + 1].split(",")
     if a == "--tier": tier = sys.argv[i + 1]
-rdir = "/tmp/seed5" if "--round5" in sys.argv else "/tmp/seed4" if "--round4" in sys.argv else "/tmp/seed3" if "--round3" in sys.argv else ("/tmp/seed2" if "--round2" in sys.argv else "/tmp/seed")
+_r = [a[7:] for a in sys.argv if a.startswith("--round")]
+rdir = "/tmp/seed" + (_r[0] if _r and _r[0] != "1" else "")
 base = f"{rdir}/{pid}"
 wt = f"{base}/repo"
 diff = f"{base}/out/change{n}.diff"
